@@ -1,0 +1,94 @@
+//! Verification hooks (only compiled with `--cfg capy_verif`).
+//!
+//! Thin public wrappers around crate-private layout and mangling functions.
+//! Nothing here changes the behaviour of the compiler.
+
+use hir::common::{
+    ComptimeLoc, ConcreteGlobalLoc, ConcreteLambdaLoc, ConcreteLoc, NaiveGlobalLoc, NaiveLambdaLoc,
+    NaiveLoc, Ty,
+};
+use interner::Interner;
+use internment::Intern;
+
+use crate::layout::{self, GetLayoutInfo};
+use crate::mangle::{self, Mangle};
+
+/// Calculates the layouts of the given types (see `layout::calc_layouts`)
+pub fn calc_layouts(tys: impl Iterator<Item = Intern<Ty>>, pointer_bit_width: u32) {
+    layout::calc_layouts(tys, pointer_bit_width)
+}
+
+#[derive(Debug, Clone, PartialEq, Eq)]
+pub struct LayoutInfo {
+    pub size: u32,
+    pub align: u32,
+    pub stride: u32,
+    /// the field offsets if the type is a struct
+    pub struct_offsets: Option<Vec<u32>>,
+    /// the discriminant offset if the type is an enum / optional / error union
+    pub discriminant_offset: Option<u32>,
+}
+
+/// `calc_layouts` must have been called on the type first
+pub fn layout_info(ty: Intern<Ty>) -> LayoutInfo {
+    LayoutInfo {
+        size: ty.size(),
+        align: ty.align(),
+        stride: ty.stride(),
+        struct_offsets: ty.struct_layout().map(|l| l.offsets().to_vec()),
+        discriminant_offset: ty.enum_layout().map(|l| l.discriminant_offset()),
+    }
+}
+
+pub fn padding_needed_for(offset: u32, align: u32) -> u32 {
+    layout::padding_needed_for(offset, align)
+}
+
+pub fn mangle_internal(name: &str) -> String {
+    mangle::mangle_internal(name)
+}
+
+pub fn mangle_naive_global(loc: NaiveGlobalLoc, mod_dir: &std::path::Path, i: &Interner) -> String {
+    loc.to_mangled_name(mod_dir, i)
+}
+
+pub fn mangle_naive_lambda(loc: NaiveLambdaLoc, mod_dir: &std::path::Path, i: &Interner) -> String {
+    loc.to_mangled_name(mod_dir, i)
+}
+
+pub fn mangle_naive(loc: NaiveLoc, mod_dir: &std::path::Path, i: &Interner) -> String {
+    loc.to_mangled_name(mod_dir, i)
+}
+
+pub fn mangle_concrete_global(
+    loc: ConcreteGlobalLoc,
+    mod_dir: &std::path::Path,
+    i: &Interner,
+) -> String {
+    loc.to_mangled_name(mod_dir, i)
+}
+
+pub fn mangle_concrete_lambda(
+    loc: ConcreteLambdaLoc,
+    mod_dir: &std::path::Path,
+    i: &Interner,
+) -> String {
+    loc.to_mangled_name(mod_dir, i)
+}
+
+pub fn mangle_concrete(loc: ConcreteLoc, mod_dir: &std::path::Path, i: &Interner) -> String {
+    loc.to_mangled_name(mod_dir, i)
+}
+
+pub fn mangle_comptime(loc: ComptimeLoc, mod_dir: &std::path::Path, i: &Interner) -> String {
+    loc.to_mangled_name(mod_dir, i)
+}
+
+pub fn mangle_comptime_data(
+    loc: ComptimeLoc,
+    data: &str,
+    mod_dir: &std::path::Path,
+    i: &Interner,
+) -> String {
+    (loc, data).to_mangled_name(mod_dir, i)
+}
